@@ -14,6 +14,8 @@
 //   rs                    Reset()
 //   m:<subject>           Match
 //   e:<alphabet>:<n>      Match on every string over the alphabet of length <= n
+//   sg:<pat>:<0|1>:<0|1>:<subject>:<M>   SegmentedStringMatcher(pat, simple, "/").Match(subject, prefixMatchOkay)
+//   pm:<pat>:<subject>:<M>               PathMatcher: PutPathString(pat) then MatchesPath(subject)
 #include <stdio.h>
 #include <stdlib.h>
 #include <string.h>
@@ -26,6 +28,8 @@
 #define private public
 #define protected public
 #include "regex/StringMatcher.h"
+#include "regex/SegmentedStringMatcher.h"
+#include "regex/PathMatcher.h"
 #undef private
 #undef protected
 #include "system/SetupSystem.h"
@@ -489,6 +493,54 @@ static void run_case(int k, const S & body)
          cs.pattern = p; cs.haveSimple = false; cs.isEscapeOf = false; cs.uniqueMatches.clear();
          o << "as=" << flags(*cs.cur, cs.sup) << ";";
          if (!(*cs.cur == tmp)) cs.fails.insert("assign-not-equal");
+      }
+      else if (c == "sg")
+      {
+         const S p = unhex(a.size() > 1 ? a[1] : ""), subj = unhex(a.size() > 4 ? a[4] : "");
+         const bool simple = (a.size() > 2)&&(a[2] == "1"), pre = (a.size() > 3)&&(a[3] == "1");
+         const bool sup = ((a.size() > 5 ? a[5] : S("S")) == "S");
+         SegmentedStringMatcher g;
+         const status_t r = g.SetPattern(String(p.c_str()), simple);
+         const bool got = g.Match(subj.c_str(), pre);
+         if (sup) o << "sg=" << (r.IsOK()?"ok":"err") << ",n" << (g.IsNegate()?1:0) << ",q" << (g.IsPatternUnique()?1:0) << ",k" << g._segments.GetNumItems() << ",m" << (got?1:0) << ";";
+             else o << "sg=U;";
+         // the documented behaviour, with a fresh StringMatcher per segment: both strings are cut at '/' (empty pieces dropped)
+         // and matched piece by piece ("*" pieces match anything); with prefixMatchOkay the subject may have more pieces
+         if ((simple)&&(r.IsOK()))
+         {
+            S body = p; bool neg = false;
+            if ((!body.empty())&&(body[0] == '~')) {neg = true; body = body.substr(1);}
+            std::vector<S> ps = split(body, '/'), ss = split(subj, '/'), pp, sp2;
+            for (size_t i=0; i<ps.size(); i++) if (!ps[i].empty()) pp.push_back(ps[i]);
+            for (size_t i=0; i<ss.size(); i++) if (!ss[i].empty()) sp2.push_back(ss[i]);
+            bool want = pre ? (pp.size() <= sp2.size()) : (pp.size() == sp2.size());
+            for (size_t i=0; (want)&&(i<pp.size()); i++) if (pp[i] != "*") {StringMatcher f(String(pp[i].c_str())); if (!f.Match(sp2[i].c_str())) want = false;}
+            if ((neg ? !want : want) != got) cs.fails.insert("glue-mismatch (SegmentedStringMatcher differs from piecewise matching)");
+         }
+      }
+      else if (c == "pm")
+      {
+         const S p = unhex(a.size() > 1 ? a[1] : ""), subj = unhex(a.size() > 2 ? a[2] : "");
+         const bool sup = ((a.size() > 3 ? a[3] : S("S")) == "S");
+         PathMatcher pm;
+         const status_t r = pm.PutPathString(String(p.c_str()), ConstQueryFilterRef());
+         const bool got = pm.MatchesPath(subj.c_str(), NULL, NULL);
+         uint32 k = 0;
+         for (ConstHashtableIterator<uint32, Hashtable<String, PathMatcherEntry> > it(pm.GetEntries()); it.HasData(); it++) k = it.GetKey();
+         if (sup) o << "pm=" << (r.IsOK()?"ok":"err") << ",k" << k << ",d" << GetPathDepth(subj.c_str()) << ",m" << (got?1:0) << ";";
+             else o << "pm=U;";
+         // piecewise with fresh matchers: the subject (without one leading '/') is cut at every '/', a trailing empty piece
+         // does not count, and must have as many pieces as the pattern has clauses
+         if (r.IsOK())
+         {
+            std::vector<S> pc = split(p, '/');
+            S sj = subj; if ((!sj.empty())&&(sj[0] == '/')) sj = sj.substr(1);
+            std::vector<S> sc; if (!sj.empty()) sc = split(sj, '/');
+            size_t depth = sc.size(); if ((depth > 0)&&(sc.back().empty())) depth--;
+            bool want = (depth == pc.size());
+            for (size_t i=0; (want)&&(i<pc.size()); i++) if (pc[i] != "*") {StringMatcher f(String(pc[i].c_str())); if (!f.Match(sc[i].c_str())) want = false;}
+            if (want != got) cs.fails.insert("glue-mismatch (PathMatcher::MatchesPath differs from clause-by-clause matching)");
+         }
       }
       else if (c == "ng") {cs.cur->SetNegate((a.size() > 1)&&(a[1] == "1")); cs.haveSimple = false; o << "ng=" << flags(*cs.cur, cs.sup) << ";";}
       else if (c == "rs") {cs.cur->Reset(); cs.sup = true; cs.haveSimple = false; cs.isEscapeOf = false; o << "rs=" << flags(*cs.cur, cs.sup) << ";";}
